@@ -219,6 +219,10 @@ pub fn csv_roundtrip(store: &mut AnnotationStore, dir: &str) -> Option<RoundTrip
     if let Some((section, detail)) = diff_ser(&original, &reloaded) {
         return Some(RoundTripFail { symptom: format!("differs@{}:{}|{}", section, diff_aspect(&detail), gaps), detail: format!("{} -- files: {}", detail, csv_files(dir)) });
     }
+    // the reloaded store is a store like any other (reverse lookups, nothing dangling, ids resolve to their items)
+    if let Some(what) = crate::c19::consistency(&loaded) {
+        return Some(RoundTripFail { symptom: format!("reloaded-store-inconsistent:{}|{}", what, gaps), detail: format!("files: {}", csv_files(dir)) });
+    }
     let _ = std::fs::remove_dir_all(dir);
     None
 }
